@@ -1,6 +1,7 @@
 import Rpcx.Model.Select
 import Rpcx.Lemmas.Cyclic
 import Rpcx.Lemmas.Swrr
+import Rpcx.Lemmas.SwrrEqual
 /-
   C12: round-robin is exact; the weighted ring is read cyclically.
 
@@ -251,6 +252,33 @@ theorem wrr_update_honoured (old : WRR) (entries : List (String × Int)) (hnd : 
     | cons x xs => simp [hq]
   have hp : (WRR.new entries).pos < (WRR.new entries).ring.length := by simpa [WRR.new] using hr
   exact wrr_exact entries hnd (old.update entries) rfl hws hr hp
+
+/-- **equal weights behave as plain round-robin – for every number of servers and every weight**: the
+    ring of `n` servers of weight `w` is `w` passes over the servers in slice order (so every window of
+    `n` consecutive selections picks each server exactly once, in the same order as round-robin) -/
+theorem wrr_equal_weights_all (names : List String) (w : Nat) (hw : 0 < w) :
+    (WRR.new (names.map (fun s => (s, (w : Int))))).ring = (List.replicate w names).flatten := by
+  have hwI : (0 : Int) < (w : Int) := by exact_mod_cast hw
+  have hws : ((names.map (fun s => (s, (w : Int)))).filter (fun e => e.2 > 0)).map (fun e => (⟨e.1, e.2, 0⟩ : W))
+      = eqSt names (w : Int) 0 := by
+    rw [List.filter_eq_self.mpr (by intro e he; simp only [List.mem_map] at he; obtain ⟨s, _, rfl⟩ := he; simpa using hwI)]
+    simp [eqSt, mkW, List.map_map, Function.comp]
+  have htot := total_eqSt0 names (w : Int)
+  simp only [WRR.new, hws, htot]
+  have hnat : ((names.length : Int) * (w : Int)).toNat = w * names.length := by
+    rw [← Int.natCast_mul, Int.toNat_natCast, Nat.mul_comm]
+  rw [hnat]
+  rcases Nat.lt_or_ge names.length 2 with hlt | h2
+  · -- zero or one server
+    match names, hlt with
+    | [], _ => simp [buildRingAux, eqSt]
+    | [x], _ =>
+      have : eqSt [x] (w : Int) 0 = [mkW (w : Int) 0 x] := by simp [eqSt]
+      rw [this, buildRing_single]
+      simp [mkW]
+  · rw [eqSt_rounds names (w : Int) hwI h2 w []]
+    simp
+
 
 /-- equal weights behave as plain round-robin: the ring is `w` repetitions of one pass over
     the servers in slice order (complete evaluation n ≤ 4, w ≤ 3; labelled as a finite check) -/
